@@ -18,7 +18,8 @@ use self::slot_block_data::SlotBlockData;
 use crate::consensus::blockstore::slot_block_data::BlockData;
 use crate::crypto::merkle::{BlockHash, DoubleMerkleProof, SliceRoot};
 use crate::shredder::{
-    RegularShredder, ShredIndex, ShredderPool, SliceCommitment, TOTAL_SHREDS, ValidatedShred,
+    RegularShredder, ShredIndex, Shredder, ShredderPool, SliceCommitment, TOTAL_SHREDS,
+    ValidatedShred,
 };
 use crate::types::{SliceIndex, SlicePayload};
 use crate::{Block, BlockId, Slot};
@@ -273,6 +274,14 @@ impl Blockstore for BlockstoreImpl {
         shred: ValidatedShred,
     ) -> Result<Option<BlockInfo>, AddShredError> {
         let slot = shred.payload().header.slot;
+        // NOTE: the shred type is not covered by the leader's signature, a type that contradicts
+        // the shred's index is tampering in transit and must not count against the leader
+        if !shred
+            .as_shred()
+            .has_expected_type(RegularShredder::DATA_OUTPUT_SHREDS)
+        {
+            return Err(AddShredError::InvalidShred);
+        }
         let mut shredder = self
             .shredders
             .checkout()
@@ -310,6 +319,13 @@ impl Blockstore for BlockstoreImpl {
         shred: ValidatedShred,
     ) -> Result<Option<BlockInfo>, AddShredError> {
         let slot = shred.payload().header.slot;
+        // NOTE: see `add_shred_from_dissemination`
+        if !shred
+            .as_shred()
+            .has_expected_type(RegularShredder::DATA_OUTPUT_SHREDS)
+        {
+            return Err(AddShredError::InvalidShred);
+        }
         let mut shredder = self
             .shredders
             .checkout()
